@@ -110,6 +110,10 @@ fn programs(quick: bool) -> Vec<(Program, bool)> {
         let vw = Op::Upsert { k: 1, value: true, w: Some(31), ttl_ms: None, remove_ttl: false };
         v.push((mk("upsert(k,value+remove-ttl);get;upsert(k,value+remove-ttl);read_all on a key without TTL".into(), 100, vec![put(1, 30)], vec![vec![vr.clone(), get(1), vr.clone(), Op::ReadAll { keys: vec![1] }]]), false));
         v.push((mk("upsert(k,value+remove-ttl) twice;read_all on a TTL key".into(), 100, vec![put_ttl(1, 30, 9000)], vec![vec![vr.clone(), get(1), vr.clone(), Op::ReadAll { keys: vec![1] }]]), false));
+        // the clock stands still inside the window: a value upsert that re-states the TTL the key already has computes
+        // the very same deadline - the value is replaced all the same
+        let same_ttl = Op::Upsert { k: 1, value: true, w: None, ttl_ms: Some(9000), remove_ttl: false };
+        v.push((mk("upsert(k,value+the same ttl);get;read_all under a standing clock".into(), 100, vec![put_ttl(1, 30, 9000)], vec![vec![same_ttl, get(1), Op::ReadAll { keys: vec![1] }]]), false));
         v.push((mk("upsert(k,value+ttl);get;upsert(k,value+weight);get;upsert(k,value+remove-ttl);read_all".into(), 100, vec![put(1, 30)], vec![vec![vt, get(1), vw, get(1), vr, Op::ReadAll { keys: vec![1] }]]), false));
     }
     // an expired, unswept key: a value upsert (accepted) followed by a TTL-only upsert that revives the entry must
